@@ -12,7 +12,8 @@ Regenerated from /repo's working tree (AST only, nothing is imported from scrapl
   * the level `send_configs` resolves an empty privilege_level to (`_pre_send_configs`)
   * CPython's str.splitlines() separator set, probed from the running interpreter
   * control-structure SHAPE assertions (raise TranslateError when the hand-modelled control flow changes):
-    for/break/else loop of send_commands, abort step of send_configs, statement order of _pre_send_configs,
+    send_commands loop (measured BEHAVIOURALLY on the live classes with a stub `self`: decision table for every list of
+    length <= 4 x failure pattern x stop_on_failed x eager), abort step of send_configs, statement order of _pre_send_configs,
     write-then-return of send_input, acquire-first wrappers of NetworkDriver, splitlines in file / send_config paths
 """
 import ast
@@ -261,50 +262,106 @@ def _kw(call):
     return {k.arg: _unp(k.value) for k in call.keywords}
 
 
+def _live_class(module, cls):
+    """the class object from the tree being checked (REPO first on sys.path; refuse any other origin)"""
+    import importlib, sys
+    from pathlib import Path
+    if "scrapli" not in sys.modules and str(REPO) not in sys.path:
+        sys.path.insert(0, str(REPO))
+    mod = importlib.import_module(module)
+    if Path(mod.__file__).resolve() != (REPO / (module.replace(".", "/") + ".py")).resolve():
+        raise TranslateError(f"cannot probe {module}: imported from {mod.__file__}, not from {REPO}")
+    return getattr(mod, cls)
+
+
+def _model_loop(n, failing, stop, eager):
+    """what Send.lean `genericSendCommands` does with commands 0..n-1: [(index, eager flag)] sent, outcome"""
+    if n == 0:
+        return [], "IndexError"
+    sent = []
+    for i in range(n - 1):
+        sent.append((i, eager))
+        if stop and i in failing:
+            return sent, "ok"
+    sent.append((n - 1, False))
+    return sent, "ok"
+
+
 def shape_send_commands(rel, cls):
-    """`for … in commands[:-1]` (all but the last) whose body sends the command with the caller's eager flag and
-    ends the loop with `break` under `stop_on_failed and response.failed…`; `else:` sends `commands[-1]` with
-    eager=False; nothing is sent outside the loop and its else."""
+    """BEHAVIOURAL probe (robust against rewrites of the loop): the real `send_commands` is run on a stub `self`
+    whose `_send_command` records its arguments and returns scripted failed flags — every list length 0..4, every
+    failure pattern, both stop_on_failed, both eager.  The measured table (which commands, in which order, with
+    which eager flag; which responses are returned; IndexError on the empty list; keyword pass-through; the caller's
+    list untouched) must be the one Send.lean `loop` / `genericSendCommands` was written from."""
+    import asyncio, itertools
     where = f"{rel}:{cls}.send_commands"
-    fn = _method(rel, cls, "send_commands")
-    loops = [n for n in ast.walk(fn) if isinstance(n, (ast.For, ast.AsyncFor, ast.While))]
-    if len(loops) != 1 or not isinstance(loops[0], ast.For):
-        raise TranslateError(f"{where}: expected exactly one for loop, found {len(loops)}")
-    lp = loops[0]
-    it = _unp(lp.iter).replace(" ", "")
-    if "commands[:" not in it or not ("-1]" in it or "len(commands)-1]" in it):
-        raise TranslateError(f"{where}: loop does not run over all but the last command: {it}")
-    is_send = lambda c: _is_self_attr(c.func, "_send_command")
-    body_calls = [c for st in lp.body for c in _calls(st, is_send)]
-    else_calls = [c for st in lp.orelse for c in _calls(st, is_send)]
-    all_calls = _calls(fn, is_send)
-    if len(body_calls) != 1 or len(else_calls) != 1 or len(all_calls) != 2:
-        raise TranslateError(f"{where}: expected one _send_command in the loop body and one in its else branch "
-                             f"({len(body_calls)}/{len(else_calls)}/{len(all_calls)})")
-    kb, ke = _kw(body_calls[0]), _kw(else_calls[0])
-    for k in ("failed_when_contains", "eager_input"):
-        if kb.get(k) != k or ke.get(k) != k:
-            raise TranslateError(f"{where}: {k} is not forwarded unchanged")
-    if kb.get("eager") != "eager" or ke.get("eager") != "False":
-        raise TranslateError(f"{where}: eager flags of the two _send_command calls are {kb.get('eager')}/{ke.get('eager')}")
-    if ke.get("command", "").replace(" ", "") != "commands[-1]":
-        raise TranslateError(f"{where}: else branch does not send commands[-1]: {ke.get('command')}")
-    tgt = lp.target
-    names = {n.id for n in ast.walk(tgt) if isinstance(n, ast.Name)}
-    if kb.get("command") not in names:
-        raise TranslateError(f"{where}: loop body does not send the loop variable: {kb.get('command')}")
-    brk = [n for n in lp.body if isinstance(n, ast.If) and len(n.body) == 1 and isinstance(n.body[0], ast.Break) and not n.orelse]
-    if len(brk) != 1 or lp.body[-1] is not brk[0] or len([n for n in ast.walk(lp) if isinstance(n, (ast.Break, ast.Continue))]) != 1:
-        raise TranslateError(f"{where}: loop body does not end in a single guarded break")
-    t = brk[0].test
-    ok = isinstance(t, ast.BoolOp) and isinstance(t.op, ast.And) and len(t.values) == 2 and _unp(t.values[0]) == "stop_on_failed" \
-        and _unp(t.values[1]) in ("response.failed is True", "response.failed", "response.failed == True")
-    if not ok:
-        raise TranslateError(f"{where}: break guard is {_unp(t)}")
-    # the responses are appended in both places, before the break test
-    for blk, nm in ((lp.body, "body"), (lp.orelse, "else")):
-        if not any("responses.append(response)" == _unp(st) for st in blk):
-            raise TranslateError(f"{where}: loop {nm} does not append the response")
+    module = rel[:-3].replace("/", ".")
+    klass = _live_class(module, cls)
+    fn = klass.__dict__.get("send_commands")
+    if fn is None:
+        raise TranslateError(f"{where}: not defined on the class")
+    is_async = asyncio.iscoroutinefunction(fn)
+    base = _live_class("scrapli.driver.generic.base_driver", "BaseGenericDriver")
+    sentinel_fwc, sentinel_to = ["MARK"], 12.5
+
+    class R:
+        def __init__(self, i, failed):
+            self.i, self.failed = i, failed
+
+    for n in range(0, 5):
+        for mask in itertools.product((False, True), repeat=n):
+            failing = {i for i, f in enumerate(mask) if f}
+            for stop in (False, True):
+                for eager in (False, True):
+                    calls = []
+
+                    def rec(**kw):
+                        calls.append(kw)
+                        return R(kw.get("command"), kw.get("command") in failing)
+
+                    class Stub:
+                        _pre_send_commands = staticmethod(base._pre_send_commands)
+                        if is_async:
+                            async def _send_command(self, *a, **kw):
+                                if a:
+                                    raise TranslateError(f"{where}: _send_command called with positional arguments")
+                                return rec(**kw)
+                        else:
+                            def _send_command(self, *a, **kw):
+                                if a:
+                                    raise TranslateError(f"{where}: _send_command called with positional arguments")
+                                return rec(**kw)
+
+                    commands = list(range(n))          # opaque tokens: the method must only pass them on
+                    outcome, res = "ok", None
+                    try:
+                        r = fn(Stub(), commands, strip_prompt=False, failed_when_contains=sentinel_fwc, stop_on_failed=stop, eager=eager,
+                               eager_input=True, timeout_ops=sentinel_to)
+                        res = asyncio.run(r) if is_async else r
+                    except IndexError:
+                        outcome = "IndexError"
+                    except TranslateError:
+                        raise
+                    except Exception as e:
+                        raise TranslateError(f"{where}: probe n={n} failing={sorted(failing)} stop={stop} eager={eager} raised {e!r}")
+                    want_sent, want_outcome = _model_loop(n, failing, stop, eager)
+                    got_sent = [(kw.get("command"), kw.get("eager")) for kw in calls]
+                    ctx = f"n={n} failing={sorted(failing)} stop_on_failed={stop} eager={eager}"
+                    if got_sent != want_sent or outcome != want_outcome:
+                        raise TranslateError(f"{where}: behaviour differs from the modelled loop for {ctx}: sent {got_sent} / {outcome}, model {want_sent} / {want_outcome}")
+                    if commands != list(range(n)):
+                        raise TranslateError(f"{where}: the caller's list is modified ({ctx}): {commands}")
+                    for kw in calls:
+                        if kw.get("failed_when_contains") is not sentinel_fwc or kw.get("eager_input") is not True or kw.get("strip_prompt") is not False \
+                                or kw.get("timeout_ops") != sentinel_to or set(kw) != {"command", "strip_prompt", "failed_when_contains", "timeout_ops", "eager", "eager_input"}:
+                            raise TranslateError(f"{where}: keyword arguments are not passed through unchanged ({ctx}): {sorted(kw)}")
+                    if outcome == "ok":
+                        try:
+                            got_resps = [x.i for x in res]
+                        except Exception as e:
+                            raise TranslateError(f"{where}: result is not a sequence of the responses: {e!r}")
+                        if got_resps != [i for i, _ in want_sent]:
+                            raise TranslateError(f"{where}: responses returned {got_resps}, commands sent {[i for i, _ in want_sent]} ({ctx})")
     return True
 
 
